@@ -219,11 +219,18 @@ def lean_check(prop_id: str, extra_targets: Iterable[str] = (), pre: Callable[[]
     t0 = time.time()
     rep = LeanReport()
     mod = f"Operon.Props.{prop_id}"
-    targets = [mod, f"Operon.Drv.{prop_id}"] + list(extra_targets)
-    targets = [t for t in targets if lean_module_path(t).exists()]
     if not lean_module_path(mod).exists():
         raise Infra(f"missing {lean_module_path(mod)}")
-    thms = theorem_names(mod)
+    # an optional second module `Operon.Props.<id>T` holds obligations that tie the model to generated code of ANOTHER
+    # property's translator, so that a failure there is attributed to those obligations only
+    mods = [mod] + ([mod + "T"] if lean_module_path(mod + "T").exists() else [])
+    targets = mods + [f"Operon.Drv.{prop_id}"] + list(extra_targets)
+    targets = [t for t in targets if lean_module_path(t).exists()]
+    thms = []
+    for m_ in mods:
+        for t in theorem_names(m_):
+            t["mod"] = m_
+            thms.append(t)
     with _Lock(LEAN / ".build.lock"):
         if pre is not None:
             rep.pre_result = pre()
@@ -236,29 +243,49 @@ def lean_check(prop_id: str, extra_targets: Iterable[str] = (), pre: Callable[[]
     rep.build_log = (out + err)[-6000:]
     rep.build_ok = rc == 0
     # forbidden tokens, comments and string literals removed
-    for m in transitive_imports(mod):
-        code = strip_lean_comments(lean_module_path(m).read_text())
-        for tok in FORBIDDEN:
-            # whole-word match: `c08_probe_admitted` is not `admit`
-            if re.search(r"(?<![A-Za-z0-9_'.])" + re.escape(tok.strip()) + r"(?![A-Za-z0-9_'])", code):
-                rep.forbidden.append(f"{m}: {tok.strip()}")
-        if re.search(r"(?m)^\s*axiom\s", code):
-            rep.forbidden.append(f"{m}: axiom")
-    rep.examples = len(re.findall(r"(?m)^\s*example\b", strip_lean_comments(lean_module_path(mod).read_text())))
+    scanned = []
+    for m_ in mods:
+        for m in transitive_imports(m_):
+            if m in scanned:
+                continue
+            scanned.append(m)
+            code = strip_lean_comments(lean_module_path(m).read_text())
+            for tok in FORBIDDEN:
+                # whole-word match: `c08_probe_admitted` is not `admit`
+                if re.search(r"(?<![A-Za-z0-9_'.])" + re.escape(tok.strip()) + r"(?![A-Za-z0-9_'])", code):
+                    rep.forbidden.append(f"{m}: {tok.strip()}")
+            if re.search(r"(?m)^\s*axiom\s", code):
+                rep.forbidden.append(f"{m}: axiom")
+    rep.examples = sum(len(re.findall(r"(?m)^\s*example\b", strip_lean_comments(lean_module_path(m_).read_text())))
+                       for m_ in mods)
     if not rep.build_ok:
-        # which theorems are hit?  errors inside the Props file are mapped to theorem spans; an error
-        # in any imported file breaks every obligation of the property
+        # which theorems are hit?  errors inside a Props file are mapped to theorem spans; an error in a file that a
+        # Props module imports breaks every obligation of that module
         text = out + err
-        rel = str(lean_module_path(mod).relative_to(LEAN))
-        lines_hit = [int(x) for x in re.findall(r"error: " + re.escape(rel) + r":(\d+):\d+", text)]
-        other_err = [l for l in text.splitlines() if l.startswith("error:") and rel not in l
-                     and "Lean exited" not in l and "build failed" not in l]
-        for t in thms:
-            hit = any(t["line"] <= ln <= t["end"] for ln in lines_hit)
-            broken = hit or bool(other_err) or not lines_hit
-            rep.theorems.append({"name": t["name"], "kind": t["kind"], "axioms": None, "ok": not broken})
-            if broken:
-                rep.broken.append(t["name"])
+        err_lines = [l for l in text.splitlines() if l.startswith("error:") and "Lean exited" not in l
+                     and "build failed" not in l]
+        located = [(m.group(1), int(m.group(2))) for l in err_lines
+                   for m in [re.match(r"error: ([^:]+\.lean):(\d+):\d+", l)] if m]
+        unlocated = [l for l in err_lines if not re.match(r"error: [^:]+\.lean:\d+:\d+", l)]
+        any_hit = False
+        for m_ in mods:
+            rel = str(lean_module_path(m_).relative_to(LEAN))
+            deps = {str(lean_module_path(x).relative_to(LEAN)) for x in transitive_imports(m_)} - {rel}
+            own = [ln for (f, ln) in located if f == rel]
+            dep_err = any(f in deps for (f, _) in located)
+            for t in [t for t in thms if t["mod"] == m_]:
+                hit = any(t["line"] <= ln <= t["end"] for ln in own)
+                broken = hit or dep_err or bool(unlocated)
+                any_hit = any_hit or broken
+                rep.theorems.append({"name": t["name"], "kind": t["kind"], "axioms": None, "ok": not broken})
+                if broken:
+                    rep.broken.append(t["name"])
+        if not any_hit:
+            # the build failed somewhere we cannot attribute (a driver, an extra target): nothing is shown
+            for t in rep.theorems:
+                if t["ok"]:
+                    t["ok"] = False
+                    rep.broken.append(t["name"])
         if not thms:
             rep.broken.append(mod)
         rep.wall_s = time.time() - t0
@@ -267,7 +294,7 @@ def lean_check(prop_id: str, extra_targets: Iterable[str] = (), pre: Callable[[]
     audit_dir = LEAN / "Audit"
     audit_dir.mkdir(exist_ok=True)
     audit = audit_dir / f"{prop_id}.lean"
-    body = f"import {mod}\n" + "".join(f"#print axioms {t['name']}\n" for t in thms)
+    body = "".join(f"import {m_}\n" for m_ in mods) + "".join(f"#print axioms {t['name']}\n" for t in thms)
     audit.write_text(body)
     rc, out, err = _run(["lake", "env", "lean", str(audit.relative_to(LEAN))], cwd=LEAN, timeout=1200)
     text = out + err
@@ -287,7 +314,7 @@ def lean_check(prop_id: str, extra_targets: Iterable[str] = (), pre: Callable[[]
     if recheck and not rep.broken:
         # thorough tier: independent re-check of the compiled theorems by leanchecker
         try:
-            rc2, o2, e2 = _run(["lake", "env", "leanchecker", mod], cwd=LEAN, timeout=1500)
+            rc2, o2, e2 = _run(["lake", "env", "leanchecker"] + mods, cwd=LEAN, timeout=1500)
             rep.leanchecker = "ok" if rc2 == 0 else f"FAILED rc={rc2}: {(o2 + e2)[-400:]}"
             if rc2 != 0:
                 rep.broken.append(f"leanchecker:{mod}")
